@@ -59,3 +59,28 @@ Proof. vm_compute. split; reflexivity. Qed.
 Lemma tms_types_shape_l :
   forallb (fun nf => (0 <? f_w (snd nf))%nat && (f_max (snd nf) =? f_w (snd nf))%nat) tms_types = true.
 Proof. vm_compute. reflexivity. Qed.
+
+(* the property's domain (coordinates up to +-9 999 999.9999 m, decimal years up to 9999.99999) fits the regenerated
+   widths: with a separating blank in TIMESERIES/DATA rows, exactly in the blank-separated REF_COORDINATE / CRD columns *)
+Definition tms_domain : list (string * Z) :=
+  [("X", 99999999999); ("Y", 99999999999); ("Z", 99999999999); ("YEAR", 999999999)]%Z.
+Definition fix_width_ok (strict : bool) (f : fld) (mag : Z) : bool :=
+  match f_kind f with
+  | KFix d => let n := len (render_F_raw d (- mag)) in if strict then (n <? f_w f)%nat else (n <=? f_w f)%nat
+  | _ => false
+  end.
+Lemma tms_domain_fits_l :
+  forallb (fun nd => match lookup_fld tms_types (fst nd) with Some f => fix_width_ok true f (snd nd) | None => false end) tms_domain = true.
+Proof. vm_compute. reflexivity. Qed.
+
+Definition nth_fld (lay : layout) (i : nat) : fld := nth i (fields_of lay) (mkfld 0 AL (KStr None) 0).
+Lemma crd_domain_fits_l :
+  forallb (fun i => fix_width_ok false (nth_fld L_crd i) 999999999999%Z) [3; 4; 5]%nat = true /\
+  forallb (fun i => fix_width_ok false (nth_fld L_tms_refcoord i) 99999999999%Z) [2; 3; 4]%nat = true.
+Proof. vm_compute. split; reflexivity. Qed.
+
+(* every field window of the three Bernese STA row types lies inside a column of the ruler line the writer itself
+   writes under the section header (the format's own column definition) *)
+Lemma sta_fields_in_ruler_l :
+  fields_in_ruler ruler_sta1 L_sta1 = true /\ fields_in_ruler ruler_sta2 L_sta2 = true /\ fields_in_ruler ruler_sta3 L_sta3 = true.
+Proof. vm_compute. repeat split; reflexivity. Qed.
